@@ -1,5 +1,723 @@
-//! (ii) type-directed generated values.
-use crate::Ctx;
+//! (ii) type-directed generated values: boundary numbers, arrays of length 0/1/many, null / non-null offsets,
+//! every version variant (every prefix of the version-gated fields, plus non-prefix patterns that validation
+//! must reject), format variants; (iii) the repo's own test blobs (font-test-data) converted to owned form and
+//! mutated; (iv) probes of the count fields the generated writer does not tie to their arrays (the translator's
+//! `assumed` list): consistent values must round-trip, inconsistent ones are the listed known findings.
+use crate::{rt, Ctx};
 use fv_harness::common::*;
+use read_fonts::tables as r;
+use read_fonts::types::{F2Dot14, FWord, Fixed, GlyphId16, LongDateTime, MajorMinor, NameId, Tag, UfWord, Version16Dot16};
+use write_fonts::tables as w;
+use write_fonts::{NullableOffsetMarker, OffsetMarker};
 
-pub fn run(_cfg: &Config, _s: &mut Session, _cx: &mut Ctx) {}
+const B16: [u16; 12] = [0, 1, 2, 255, 256, 0x7FFE, 0x7FFF, 0x8000, 0x8001, 0xFFFE, 0xFFFF, 0x1234];
+const B32: [u32; 12] = [0, 1, 0xFF, 0x100, 0xFFFF, 0x1_0000, 0x7FFF_FFFF, 0x8000_0000, 0x8000_0001, 0xFFFF_FFFE, 0xFFFF_FFFF, 0x1234_5678];
+
+fn u16v(g: &mut Rng) -> u16 {
+    if g.chance(1, 2) { *g.pick(&B16) } else { g.next() as u16 }
+}
+fn i16v(g: &mut Rng) -> i16 {
+    u16v(g) as i16
+}
+fn u32v(g: &mut Rng) -> u32 {
+    if g.chance(1, 2) { *g.pick(&B32) } else { g.next() as u32 }
+}
+fn fw(g: &mut Rng) -> FWord {
+    FWord::new(i16v(g))
+}
+fn ufw(g: &mut Rng) -> UfWord {
+    UfWord::new(u16v(g))
+}
+fn fixed(g: &mut Rng) -> Fixed {
+    Fixed::from_bits(u32v(g) as i32)
+}
+fn f2(g: &mut Rng) -> F2Dot14 {
+    F2Dot14::from_bits(i16v(g))
+}
+fn tag(g: &mut Rng) -> Tag {
+    let b = g.bytes(4);
+    // any 4 bytes are a representable Tag value at the byte level; keep to printable so Tag::new accepts them
+    Tag::new(&[0x20 + b[0] % 0x5f, 0x20 + b[1] % 0x5f, 0x20 + b[2] % 0x5f, 0x20 + b[3] % 0x5f])
+}
+fn gid(g: &mut Rng) -> GlyphId16 {
+    GlyphId16::new(u16v(g))
+}
+fn len(g: &mut Rng) -> usize {
+    match g.below(6) {
+        0 => 0,
+        1 => 1,
+        2 => 2,
+        _ => g.below(9) as usize,
+    }
+}
+fn vec_of<T>(g: &mut Rng, n: usize, mut f: impl FnMut(&mut Rng) -> T) -> Vec<T> {
+    (0..n).map(|_| f(g)).collect()
+}
+
+fn head(g: &mut Rng) -> w::head::Head {
+    w::head::Head {
+        font_revision: fixed(g),
+        checksum_adjustment: u32v(g),
+        magic_number: u32v(g),
+        flags: u16v(g),
+        units_per_em: u16v(g),
+        created: LongDateTime::new(((u32v(g) as i64) << 32) | u32v(g) as i64),
+        modified: LongDateTime::new(((u32v(g) as i64) << 32) | u32v(g) as i64),
+        x_min: i16v(g),
+        y_min: i16v(g),
+        x_max: i16v(g),
+        y_max: i16v(g),
+        mac_style: w::head::MacStyle::from_bits_truncate(u16v(g)),
+        lowest_rec_ppem: u16v(g),
+        font_direction_hint: i16v(g),
+        index_to_loc_format: i16v(g),
+    }
+}
+
+fn hhea(g: &mut Rng) -> w::hhea::Hhea {
+    w::hhea::Hhea {
+        ascender: fw(g),
+        descender: fw(g),
+        line_gap: fw(g),
+        advance_width_max: ufw(g),
+        min_left_side_bearing: fw(g),
+        min_right_side_bearing: fw(g),
+        x_max_extent: fw(g),
+        caret_slope_rise: i16v(g),
+        caret_slope_run: i16v(g),
+        caret_offset: i16v(g),
+        number_of_h_metrics: u16v(g),
+    }
+}
+
+fn vhea(g: &mut Rng) -> w::vhea::Vhea {
+    w::vhea::Vhea {
+        ascender: fw(g),
+        descender: fw(g),
+        line_gap: fw(g),
+        advance_height_max: ufw(g),
+        min_top_side_bearing: fw(g),
+        min_bottom_side_bearing: fw(g),
+        y_max_extent: fw(g),
+        caret_slope_rise: i16v(g),
+        caret_slope_run: i16v(g),
+        caret_offset: i16v(g),
+        number_of_long_ver_metrics: u16v(g),
+    }
+}
+
+/// `mask` bit i = i-th optional field present
+fn maxp(g: &mut Rng, mask: u32) -> w::maxp::Maxp {
+    let mut o = |i: u32| if mask >> i & 1 == 1 { Some(u16v(g)) } else { None };
+    let f: Vec<Option<u16>> = (0..13).map(&mut o).collect();
+    w::maxp::Maxp {
+        num_glyphs: u16v(g),
+        max_points: f[0],
+        max_contours: f[1],
+        max_composite_points: f[2],
+        max_composite_contours: f[3],
+        max_zones: f[4],
+        max_twilight_points: f[5],
+        max_storage: f[6],
+        max_function_defs: f[7],
+        max_instruction_defs: f[8],
+        max_stack_elements: f[9],
+        max_size_of_instructions: f[10],
+        max_component_elements: f[11],
+        max_component_depth: f[12],
+    }
+}
+
+fn os2(g: &mut Rng, mask: u32) -> w::os2::Os2 {
+    let p = g.bytes(10);
+    let mut panose = [0u8; 10];
+    panose.copy_from_slice(&p);
+    let on = |i: u32| mask >> i & 1 == 1;
+    w::os2::Os2 {
+        x_avg_char_width: i16v(g),
+        us_weight_class: u16v(g),
+        us_width_class: u16v(g),
+        fs_type: u16v(g),
+        y_subscript_x_size: i16v(g),
+        y_subscript_y_size: i16v(g),
+        y_subscript_x_offset: i16v(g),
+        y_subscript_y_offset: i16v(g),
+        y_superscript_x_size: i16v(g),
+        y_superscript_y_size: i16v(g),
+        y_superscript_x_offset: i16v(g),
+        y_superscript_y_offset: i16v(g),
+        y_strikeout_size: i16v(g),
+        y_strikeout_position: i16v(g),
+        s_family_class: i16v(g),
+        panose_10: panose,
+        ul_unicode_range_1: u32v(g),
+        ul_unicode_range_2: u32v(g),
+        ul_unicode_range_3: u32v(g),
+        ul_unicode_range_4: u32v(g),
+        ach_vend_id: tag(g),
+        fs_selection: w::os2::SelectionFlags::from_bits_truncate(u16v(g)),
+        us_first_char_index: u16v(g),
+        us_last_char_index: u16v(g),
+        s_typo_ascender: i16v(g),
+        s_typo_descender: i16v(g),
+        s_typo_line_gap: i16v(g),
+        us_win_ascent: u16v(g),
+        us_win_descent: u16v(g),
+        ul_code_page_range_1: on(0).then(|| u32v(g)),
+        ul_code_page_range_2: on(1).then(|| u32v(g)),
+        sx_height: on(2).then(|| i16v(g)),
+        s_cap_height: on(3).then(|| i16v(g)),
+        us_default_char: on(4).then(|| u16v(g)),
+        us_break_char: on(5).then(|| u16v(g)),
+        us_max_context: on(6).then(|| u16v(g)),
+        us_lower_optical_point_size: on(7).then(|| u16v(g)),
+        us_upper_optical_point_size: on(8).then(|| u16v(g)),
+    }
+}
+
+fn post(g: &mut Rng, version: Version16Dot16, with_v2: u32) -> w::post::Post {
+    let n = len(g);
+    w::post::Post {
+        version,
+        italic_angle: fixed(g),
+        underline_position: fw(g),
+        underline_thickness: fw(g),
+        is_fixed_pitch: u32v(g),
+        min_mem_type42: u32v(g),
+        max_mem_type42: u32v(g),
+        min_mem_type1: u32v(g),
+        max_mem_type1: u32v(g),
+        num_glyphs: (with_v2 & 1 == 1).then_some(n as u16),
+        glyph_name_index: (with_v2 & 2 == 2).then(|| vec_of(g, n, |g| g.below(258) as u16)),
+        string_data: (with_v2 & 4 == 4).then(Vec::new),
+    }
+}
+
+fn gasp(g: &mut Rng, n: usize, count: u16) -> w::gasp::Gasp {
+    w::gasp::Gasp {
+        version: u16v(g),
+        num_ranges: count,
+        gasp_ranges: vec_of(g, n, |g| w::gasp::GaspRange {
+            range_max_ppem: u16v(g),
+            range_gasp_behavior: w::gasp::GaspRangeBehavior::from_bits_truncate(u16v(g)),
+        }),
+    }
+}
+
+fn segment_maps(g: &mut Rng) -> w::avar::SegmentMaps {
+    let n = len(g);
+    w::avar::SegmentMaps { axis_value_maps: vec_of(g, n, |g| w::avar::AxisValueMap { from_coordinate: f2(g), to_coordinate: f2(g) }) }
+}
+
+fn delta_set_index_map(g: &mut Rng) -> w::variations::DeltaSetIndexMap {
+    let n = 1 + len(g);
+    let ids: Vec<u32> = (0..n).map(|_| (g.below(3) as u32) << 16 | g.below(5) as u32).collect();
+    ids.into_iter().collect()
+}
+
+fn ivs(g: &mut Rng) -> w::variations::ItemVariationStore {
+    use w::variations::*;
+    let axes = 1 + g.below(2) as usize;
+    let regions = 1 + g.below(2) as usize;
+    let region_list = VariationRegionList::new(
+        axes as u16,
+        (0..regions)
+            .map(|_| VariationRegion { region_axes: vec_of(g, axes, |g| RegionAxisCoordinates { start_coord: f2(g), peak_coord: f2(g), end_coord: f2(g) }) })
+            .collect(),
+    );
+    let items = len(g);
+    let data = ItemVariationData::new(
+        items as u16,
+        0,
+        (0..regions as u16).collect(),
+        (0..items * regions).map(|_| g.range(-128, 127) as u8).collect(),
+    );
+    ItemVariationStore::new(region_list, vec![Some(data)])
+}
+
+fn avar(g: &mut Rng, v2: u32) -> w::avar::Avar {
+    let n = len(g);
+    w::avar::Avar {
+        axis_segment_maps: vec_of(g, n, segment_maps),
+        axis_index_map: if v2 & 1 == 1 { NullableOffsetMarker::new(Some(delta_set_index_map(g))) } else { NullableOffsetMarker::new(None) },
+        var_store: if v2 & 2 == 2 { NullableOffsetMarker::new(Some(ivs(g))) } else { NullableOffsetMarker::new(None) },
+    }
+}
+
+fn mvar(g: &mut Rng, n: usize, count: u16) -> w::mvar::Mvar {
+    w::mvar::Mvar {
+        version: MajorMinor::VERSION_1_0,
+        value_record_size: 8,
+        value_record_count: count,
+        item_variation_store: if g.chance(1, 2) { NullableOffsetMarker::new(Some(ivs(g))) } else { NullableOffsetMarker::new(None) },
+        value_records: vec_of(g, n, |g| w::mvar::ValueRecord { value_tag: tag(g), delta_set_outer_index: u16v(g), delta_set_inner_index: u16v(g) }),
+    }
+}
+
+/// consistent CPAL with `np` palettes of `ne` entries; `v1` bit i = i-th version-1 array present
+fn cpal(g: &mut Rng, np: usize, ne: usize, v1: u32) -> w::cpal::Cpal {
+    let mut c = w::cpal::Cpal {
+        num_palette_entries: ne as u16,
+        num_palettes: np as u16,
+        num_color_records: (np * ne) as u16,
+        color_record_indices: (0..np).map(|i| (i * ne) as u16).collect(),
+        ..Default::default()
+    };
+    if np * ne > 0 {
+        c.color_records_array.set(vec_of(g, np * ne, |g| {
+            let b = g.bytes(4);
+            w::cpal::ColorRecord { blue: b[0], green: b[1], red: b[2], alpha: b[3] }
+        }));
+    }
+    if v1 & 1 == 1 {
+        c.palette_types_array.set(vec_of(g, np, |g| w::cpal::PaletteType::from_bits_truncate(g.below(4) as u32)));
+    }
+    if v1 & 2 == 2 {
+        c.palette_labels_array.set(vec_of(g, np, u16v));
+    }
+    if v1 & 4 == 4 {
+        c.palette_entry_labels_array.set(vec_of(g, ne, |g| NameId::new(u16v(g))));
+    }
+    c
+}
+
+fn solid(g: &mut Rng) -> w::colr::Paint {
+    match g.below(4) {
+        0 => w::colr::Paint::solid(u16v(g), f2(g)),
+        1 => w::colr::Paint::var_solid(u16v(g), f2(g), u32v(g)),
+        2 => w::colr::Paint::colr_glyph(gid(g)),
+        _ => w::colr::Paint::colr_layers(g.below(256) as u8, u32v(g)),
+    }
+}
+
+fn color_line(g: &mut Rng) -> w::colr::ColorLine {
+    let n = len(g);
+    w::colr::ColorLine::new(
+        *g.pick(&[w::colr::Extend::Pad, w::colr::Extend::Repeat, w::colr::Extend::Reflect]),
+        n as u16,
+        vec_of(g, n, |g| w::colr::ColorStop::new(f2(g), u16v(g), f2(g))),
+    )
+}
+
+fn paint(g: &mut Rng, depth: u32) -> w::colr::Paint {
+    use w::colr::Paint as P;
+    if depth == 0 {
+        return solid(g);
+    }
+    match g.below(12) {
+        0 => P::glyph(paint(g, depth - 1), gid(g)),
+        1 => P::translate(paint(g, depth - 1), fw(g), fw(g)),
+        2 => P::scale(paint(g, depth - 1), f2(g), f2(g)),
+        3 => P::rotate(paint(g, depth - 1), f2(g)),
+        4 => P::skew(paint(g, depth - 1), f2(g), f2(g)),
+        5 => P::linear_gradient(color_line(g), fw(g), fw(g), fw(g), fw(g), fw(g), fw(g)),
+        6 => P::radial_gradient(color_line(g), fw(g), fw(g), ufw(g), fw(g), fw(g), ufw(g)),
+        7 => P::sweep_gradient(color_line(g), fw(g), fw(g), f2(g), f2(g)),
+        8 => P::transform(
+            paint(g, depth - 1),
+            w::colr::Affine2x3::new(fixed(g), fixed(g), fixed(g), fixed(g), fixed(g), fixed(g)),
+        ),
+        9 => P::composite(paint(g, depth - 1), w::colr::CompositeMode::SrcOver, paint(g, depth - 1)),
+        10 => P::scale_uniform(paint(g, depth - 1), f2(g)),
+        _ => solid(g),
+    }
+}
+
+/// `parts` bits: 0 v0 records, 1 base_glyph_list, 2 layer_list, 3 clip_list, 4 var_index_map, 5 var store
+fn colr(g: &mut Rng, parts: u32) -> w::colr::Colr {
+    let mut c = w::colr::Colr::default();
+    if parts & 1 != 0 {
+        let nb = 1 + len(g);
+        let nl = 1 + len(g);
+        c.num_base_glyph_records = nb as u16;
+        c.num_layer_records = nl as u16;
+        c.base_glyph_records.set(vec_of(g, nb, |g| w::colr::BaseGlyph::new(gid(g), u16v(g), u16v(g))));
+        c.layer_records.set(vec_of(g, nl, |g| w::colr::Layer::new(gid(g), u16v(g))));
+    }
+    if parts & 2 != 0 {
+        let n = len(g);
+        c.base_glyph_list.set(w::colr::BaseGlyphList::new(n as u32, vec_of(g, n, |g| w::colr::BaseGlyphPaint::new(gid(g), paint(g, 2)))));
+    }
+    if parts & 4 != 0 {
+        let n = len(g);
+        c.layer_list.set(w::colr::LayerList::new(n as u32, vec_of(g, n, |g| paint(g, 2))));
+    }
+    if parts & 8 != 0 {
+        let n = len(g);
+        c.clip_list.set(w::colr::ClipList::new(
+            1,
+            n as u32,
+            vec_of(g, n, |g| {
+                let b = if g.chance(1, 2) {
+                    w::colr::ClipBox::format_1(fw(g), fw(g), fw(g), fw(g))
+                } else {
+                    w::colr::ClipBox::format_2(fw(g), fw(g), fw(g), fw(g), u32v(g))
+                };
+                w::colr::Clip::new(gid(g), gid(g), b)
+            }),
+        ));
+    }
+    if parts & 16 != 0 {
+        c.var_index_map.set(delta_set_index_map(g));
+    }
+    if parts & 32 != 0 {
+        c.item_variation_store.set(ivs(g));
+    }
+    c
+}
+
+fn coverage(g: &mut Rng) -> w::layout::CoverageTable {
+    let n = len(g);
+    if g.chance(1, 2) {
+        let mut gl: Vec<u16> = vec_of(g, n, u16v);
+        gl.sort();
+        gl.dedup();
+        w::layout::CoverageTable::format_1(gl.into_iter().map(GlyphId16::new).collect())
+    } else {
+        let mut start = 0u16;
+        let mut idx = 0u16;
+        let mut recs = vec![];
+        for _ in 0..n {
+            let a = start.saturating_add(g.below(50) as u16);
+            let b = a.saturating_add(g.below(10) as u16);
+            recs.push(w::layout::RangeRecord::new(GlyphId16::new(a), GlyphId16::new(b), idx));
+            idx = idx.wrapping_add(b - a + 1);
+            start = b.saturating_add(1);
+        }
+        w::layout::CoverageTable::format_2(recs)
+    }
+}
+
+fn class_def(g: &mut Rng) -> w::layout::ClassDef {
+    let n = len(g);
+    if g.chance(1, 2) {
+        w::layout::ClassDef::format_1(gid(g), vec_of(g, n, u16v))
+    } else {
+        w::layout::ClassDef::format_2(vec_of(g, n, |g| {
+            let a = u16v(g);
+            w::layout::ClassRangeRecord::new(GlyphId16::new(a), GlyphId16::new(a.saturating_add(g.below(9) as u16)), u16v(g))
+        }))
+    }
+}
+
+fn caret(g: &mut Rng) -> w::gdef::CaretValue {
+    match g.below(3) {
+        0 => w::gdef::CaretValue::format_1(i16v(g)),
+        1 => w::gdef::CaretValue::format_2(u16v(g)),
+        _ => w::gdef::CaretValue::format_3(i16v(g), w::layout::DeviceOrVariationIndex::variation_index(u16v(g), u16v(g))),
+    }
+}
+
+/// `parts` bits: 0 glyph_class_def, 1 attach_list, 2 lig_caret_list, 3 mark_attach_class_def,
+/// 4 mark_glyph_sets_def (1.2), 5 item_var_store (1.3)
+fn gdef(g: &mut Rng, parts: u32) -> w::gdef::Gdef {
+    let mut d = w::gdef::Gdef::default();
+    if parts & 1 != 0 {
+        d.glyph_class_def.set(class_def(g));
+    }
+    if parts & 2 != 0 {
+        let n = len(g);
+        d.attach_list.set(w::gdef::AttachList::new(coverage(g), vec_of(g, n, |g| {
+            let k = len(g);
+            w::gdef::AttachPoint::new(vec_of(g, k, u16v))
+        })));
+    }
+    if parts & 4 != 0 {
+        let n = len(g);
+        d.lig_caret_list.set(w::gdef::LigCaretList::new(coverage(g), vec_of(g, n, |g| {
+            let k = len(g);
+            w::gdef::LigGlyph::new(vec_of(g, k, caret))
+        })));
+    }
+    if parts & 8 != 0 {
+        d.mark_attach_class_def.set(class_def(g));
+    }
+    if parts & 16 != 0 {
+        let n = len(g);
+        d.mark_glyph_sets_def.set(w::gdef::MarkGlyphSets::new(vec_of(g, n, coverage)));
+    }
+    if parts & 32 != 0 {
+        d.item_var_store.set(ivs(g));
+    }
+    d
+}
+
+fn stat(g: &mut Rng, with_values: bool, elided: Option<u16>) -> w::stat::Stat {
+    use w::stat::*;
+    let na = len(g);
+    let nv = len(g);
+    let axes = vec_of(g, na, |g| AxisRecord::new(tag(g), NameId::new(u16v(g)), u16v(g)));
+    let flags = |g: &mut Rng| AxisValueTableFlags::from_bits_truncate(g.below(4) as u16);
+    let values: Vec<AxisValue> = vec_of(g, nv, |g| match g.below(4) {
+        0 => AxisValue::format_1(u16v(g), flags(g), NameId::new(u16v(g)), fixed(g)),
+        1 => AxisValue::format_2(u16v(g), flags(g), NameId::new(u16v(g)), fixed(g), fixed(g), fixed(g)),
+        2 => AxisValue::format_3(u16v(g), flags(g), NameId::new(u16v(g)), fixed(g), fixed(g)),
+        _ => {
+            let k = len(g);
+            AxisValue::format_4(flags(g), NameId::new(u16v(g)), vec_of(g, k, |g| AxisValueRecord::new(u16v(g), fixed(g))))
+        }
+    });
+    let mut s = Stat::default();
+    s.design_axes.set(axes);
+    if with_values {
+        s.offset_to_axis_values.set(values.into_iter().map(OffsetMarker::new).collect::<Vec<_>>());
+    }
+    s.elided_fallback_name_id = elided.map(NameId::new);
+    s
+}
+
+fn name(g: &mut Rng, lang: Option<usize>) -> w::name::Name {
+    let n = len(g);
+    let strs = ["", "a", "Regular", "Ünï", "x y z"];
+    let mut recs = vec_of(g, n, |g| {
+        let mac = g.chance(1, 4);
+        w::name::NameRecord::new(
+            if mac { 1 } else { *g.pick(&[0u16, 3]) },
+            if mac { 0 } else { *g.pick(&[1u16, 10, 3]) },
+            u16v(g),
+            NameId::new(u16v(g)),
+            OffsetMarker::new(if mac { g.pick(&["", "a", "Regular"]).to_string() } else { g.pick(&strs).to_string() }),
+        )
+    });
+    recs.sort();
+    w::name::Name {
+        name_record: recs,
+        lang_tag_record: lang.map(|k| vec_of(g, k, |g| w::name::LangTagRecord::new(OffsetMarker::new(g.pick(&["en", "de-CH", ""]).to_string())))),
+    }
+}
+
+fn base_coord(g: &mut Rng) -> w::base::BaseCoord {
+    match g.below(3) {
+        0 => w::base::BaseCoord::format_1(i16v(g)),
+        1 => w::base::BaseCoord::format_2(i16v(g), u16v(g), u16v(g)),
+        _ => w::base::BaseCoord::format_3(i16v(g), g.chance(1, 2).then(|| w::layout::DeviceOrVariationIndex::variation_index(u16v(g), u16v(g)))),
+    }
+}
+
+fn min_max(g: &mut Rng) -> w::base::MinMax {
+    let n = len(g);
+    w::base::MinMax::new(
+        g.chance(1, 2).then(|| base_coord(g)),
+        g.chance(1, 2).then(|| base_coord(g)),
+        vec_of(g, n, |g| w::base::FeatMinMaxRecord::new(tag(g), None, None)),
+    )
+}
+
+fn base_axis(g: &mut Rng) -> w::base::Axis {
+    let nt = len(g);
+    let ns = len(g);
+    w::base::Axis::new(
+        g.chance(1, 2).then(|| w::base::BaseTagList::new(vec_of(g, nt, tag))),
+        w::base::BaseScriptList::new(vec_of(g, ns, |g| {
+            let nc = len(g);
+            let nl = len(g);
+            w::base::BaseScriptRecord::new(
+                tag(g),
+                w::base::BaseScript::new(
+                    g.chance(1, 2).then(|| w::base::BaseValues::new(u16v(g), vec_of(g, nc, base_coord))),
+                    g.chance(1, 2).then(|| min_max(g)),
+                    vec_of(g, nl, |g| w::base::BaseLangSysRecord::new(tag(g), min_max(g))),
+                ),
+            )
+        })),
+    )
+}
+
+fn base(g: &mut Rng, parts: u32) -> w::base::Base {
+    let mut b = w::base::Base::default();
+    if parts & 1 != 0 {
+        b.horiz_axis.set(base_axis(g));
+    }
+    if parts & 2 != 0 {
+        b.vert_axis.set(base_axis(g));
+    }
+    if parts & 4 != 0 {
+        b.item_var_store.set(ivs(g));
+    }
+    b
+}
+
+fn cmap_raw(g: &mut Rng) -> w::cmap::Cmap {
+    use w::cmap::*;
+    let n = 1 + g.below(3) as usize;
+    let recs = vec_of(g, n, |g| {
+        let sub = match g.below(5) {
+            0 => {
+                let k = len(g);
+                CmapSubtable::format_6(u16v(g), u16v(g), u16v(g), k as u16, vec_of(g, k, u16v))
+            }
+            1 => {
+                let k = len(g);
+                CmapSubtable::format_12(u32v(g), vec_of(g, k, |g| SequentialMapGroup::new(u32v(g), u32v(g), u32v(g))))
+            }
+            2 => {
+                let k = len(g);
+                CmapSubtable::format_13(u32v(g), u32v(g), k as u32, vec_of(g, k, |g| ConstantMapGroup::new(u32v(g), u32v(g), u32v(g))))
+            }
+            3 => {
+                let k = len(g);
+                CmapSubtable::format_10(u32v(g), u32v(g), u32v(g), k as u32, vec_of(g, k, u16v))
+            }
+            _ => CmapSubtable::format_0(u16v(g), g.bytes(256)),
+        };
+        EncodingRecord::new(*g.pick(&[PlatformId::Unicode, PlatformId::Windows, PlatformId::Macintosh]), u16v(g), sub)
+    });
+    Cmap::new(recs)
+}
+
+pub fn run(cfg: &Config, s: &mut Session, cx: &mut Ctx) {
+    let mut g = Rng::new(cfg.seed ^ 0xC04);
+    let g = &mut g;
+    let reps = if cfg.thorough() { 40 } else { 6 };
+    for rep in 0..reps {
+        let l = format!("gen:{rep}");
+        rt!(s, cx, "Head", w::head::Head, r::head::Head, &l, &head(g));
+        rt!(s, cx, "Hhea", w::hhea::Hhea, r::hhea::Hhea, &l, &hhea(g));
+        rt!(s, cx, "Vhea", w::vhea::Vhea, r::vhea::Vhea, &l, &vhea(g));
+        // maxp: version 0.5 (no optional field), 1.0 (all), and every other prefix / random pattern
+        for mask in [0u32, 0x1FFF, 0x1, 0x7F, 0xFFF, 0x1FFE, g.below(0x2000) as u32] {
+            rt!(s, cx, "Maxp", w::maxp::Maxp, r::maxp::Maxp, &format!("{l}:mask={mask:#x}"), &maxp(g, mask));
+        }
+        // OS/2: versions 0,1,2..5 are the prefixes 0, 2, 7, 9 of the 9 optional fields; others must be rejected
+        for mask in [0u32, 0b11, 0b1111111, 0b111111111, 0b1, 0b111, 0b11111, 0b110000011, 0b100000000, g.below(512) as u32] {
+            rt!(s, cx, "Os2", w::os2::Os2, r::os2::Os2, &format!("{l}:mask={mask:#b}"), &os2(g, mask));
+        }
+        for (v, m) in [
+            (Version16Dot16::VERSION_1_0, 0u32),
+            (Version16Dot16::VERSION_3_0, 0),
+            (Version16Dot16::VERSION_2_0, 7),
+            (Version16Dot16::VERSION_2_0, 3),
+            (Version16Dot16::VERSION_2_0, 0),
+            (Version16Dot16::VERSION_2_5, 0),
+            (Version16Dot16::VERSION_1_0, 7),
+            (Version16Dot16::VERSION_3_0, 3),
+        ] {
+            rt!(s, cx, "Post", w::post::Post, r::post::Post, &format!("{l}:v={v:?}:opt={m}"), &post(g, v, m));
+        }
+        for v2 in 0..4u32 {
+            rt!(s, cx, "Avar", w::avar::Avar, r::avar::Avar, &format!("{l}:v2parts={v2}"), &avar(g, v2));
+        }
+        for lang in [None, Some(0usize), Some(1), Some(3)] {
+            rt!(s, cx, "Name", w::name::Name, r::name::Name, &format!("{l}:lang={lang:?}"), &name(g, lang));
+        }
+        for (wv, el) in [(false, None), (true, Some(2u16)), (true, None), (false, Some(0xFFFF))] {
+            rt!(s, cx, "Stat", w::stat::Stat, r::stat::Stat, &format!("{l}:values={wv}:elided={el:?}"), &stat(g, wv, el));
+        }
+        for parts in [0u32, 1, 2, 4, 8, 16, 32, 15, 31, 63, 48, g.below(64) as u32] {
+            rt!(s, cx, "Gdef", w::gdef::Gdef, r::gdef::Gdef, &format!("{l}:parts={parts:#b}"), &gdef(g, parts));
+        }
+        for parts in 0..8u32 {
+            rt!(s, cx, "Base", w::base::Base, r::base::Base, &format!("{l}:parts={parts:#b}"), &base(g, parts));
+        }
+        for parts in [0u32, 1, 2, 3, 4, 6, 8, 10, 16, 32, 48, 63, g.below(64) as u32] {
+            rt!(s, cx, "Colr", w::colr::Colr, r::colr::Colr, &format!("{l}:parts={parts:#b}"), &colr(g, parts));
+        }
+        for v1 in 0..8u32 {
+            let (np, ne) = (len(g), 1 + len(g));
+            rt!(s, cx, "Cpal", w::cpal::Cpal, r::cpal::Cpal, &format!("{l}:v1parts={v1:#b}"), &cpal(g, np, ne, v1));
+        }
+        rt!(s, cx, "Cmap", w::cmap::Cmap, r::cmap::Cmap, &l, &cmap_raw(g));
+        // consistent values of the types whose count field is a plain owned field
+        let n = len(g);
+        rt!(s, cx, "Gasp", w::gasp::Gasp, r::gasp::Gasp, &l, &gasp(g, n, n as u16));
+        let n = len(g);
+        rt!(s, cx, "Mvar", w::mvar::Mvar, r::mvar::Mvar, &l, &mvar(g, n, n as u16));
+        rt!(s, cx, "CoverageTable", w::layout::CoverageTable, r::layout::CoverageTable, &l, &coverage(g));
+        rt!(s, cx, "ClassDef", w::layout::ClassDef, r::layout::ClassDef, &l, &class_def(g));
+        rt!(s, cx, "Paint", w::colr::Paint, r::colr::Paint, &l, &paint(g, 3));
+        rt!(s, cx, "ItemVariationStore", w::variations::ItemVariationStore, r::variations::ItemVariationStore, &l, &ivs(g));
+        rt!(s, cx, "DeltaSetIndexMap", w::variations::DeltaSetIndexMap, r::variations::DeltaSetIndexMap, &l, &delta_set_index_map(g));
+    }
+    probes(cfg, s, cx, g);
+    blobs(cfg, s, cx);
+}
+
+/// (iv) the count fields that are plain owned fields (translator report `assumed`): values where the field
+/// disagrees with the array pass `validate()`; whether they round-trip is probed here.
+fn probes(_cfg: &Config, s: &mut Session, cx: &mut Ctx, g: &mut Rng) {
+    for (n, c) in [(2usize, 1u16), (2, 3), (0, 1), (3, 0)] {
+        let l = format!("probe:free-count:Gasp.num_ranges={c}:len(gasp_ranges)={n}");
+        rt!(s, cx, "Gasp", w::gasp::Gasp, r::gasp::Gasp, &l, &gasp(g, n, c));
+        let l = format!("probe:free-count:Mvar.value_record_count={c}:len(value_records)={n}");
+        rt!(s, cx, "Mvar", w::mvar::Mvar, r::mvar::Mvar, &l, &mvar(g, n, c));
+        let l = format!("probe:free-count:ColorLine.num_stops={c}:len(color_stops)={n}");
+        let cl = w::colr::ColorLine::new(w::colr::Extend::Pad, c, vec_of(g, n, |g| w::colr::ColorStop::new(f2(g), u16v(g), f2(g))));
+        rt!(s, cx, "ColorLine", w::colr::ColorLine, r::colr::ColorLine, &l, &cl);
+        let l = format!("probe:free-count:ClipList.num_clips={c}:len(clips)={n}");
+        let cl = w::colr::ClipList::new(1, c as u32, vec_of(g, n, |g| w::colr::Clip::new(gid(g), gid(g), w::colr::ClipBox::format_1(fw(g), fw(g), fw(g), fw(g)))));
+        rt!(s, cx, "ClipList", w::colr::ClipList, r::colr::ClipList, &l, &cl);
+        let l = format!("probe:free-count:LayerList.num_layers={c}:len(paints)={n}");
+        let ll = w::colr::LayerList::new(c as u32, vec_of(g, n, solid));
+        rt!(s, cx, "LayerList", w::colr::LayerList, r::colr::LayerList, &l, &ll);
+        let l = format!("probe:free-count:BaseGlyphList.num_base_glyph_paint_records={c}:len(base_glyph_paint_records)={n}");
+        let bl = w::colr::BaseGlyphList::new(c as u32, vec_of(g, n, |g| w::colr::BaseGlyphPaint::new(gid(g), solid(g))));
+        rt!(s, cx, "BaseGlyphList", w::colr::BaseGlyphList, r::colr::BaseGlyphList, &l, &bl);
+        let l = format!("probe:free-count:Cmap6.entry_count={c}:len(glyph_id_array)={n}");
+        let c6 = w::cmap::Cmap6::new(0, 0, 0, c, vec_of(g, n, u16v));
+        rt!(s, cx, "Cmap6", w::cmap::Cmap6, r::cmap::Cmap6, &l, &c6);
+        let l = format!("probe:free-count:Cmap13.num_groups={c}:len(groups)={n}");
+        let c13 = w::cmap::Cmap13::new(0, 0, c as u32, vec_of(g, n, |g| w::cmap::ConstantMapGroup::new(u32v(g), u32v(g), u32v(g))));
+        rt!(s, cx, "Cmap13", w::cmap::Cmap13, r::cmap::Cmap13, &l, &c13);
+        let l = format!("probe:free-count:Cpal.num_palettes={c}:len(color_record_indices)={n}");
+        let mut cp = cpal(g, n, 2, 0);
+        cp.num_palettes = c;
+        rt!(s, cx, "Cpal", w::cpal::Cpal, r::cpal::Cpal, &l, &cp);
+    }
+    for n in [0usize, 1, 255, 257] {
+        let l = format!("probe:fixed-len:Cmap0.len(glyph_id_array)={n}");
+        rt!(s, cx, "Cmap0", w::cmap::Cmap0, r::cmap::Cmap0, &l, &w::cmap::Cmap0::new(0, g.bytes(n)));
+    }
+}
+
+macro_rules! blob {
+    ($s:expr, $cx:expr, $name:expr, $owned:ty, $read:ty, $label:expr, $bytes:expr) => {{
+        use read_fonts::FontRead;
+        let owned = catch(|| <$owned as FontRead>::read(read_fonts::FontData::new($bytes)));
+        match owned {
+            Err(p) => $s.oracle(&format!("to-owned-no-panic:{}", $name), false, || $label.to_string(), || p),
+            Ok(Err(_)) => $s.count(&format!("blob-unreadable:{}", $name)),
+            Ok(Ok(v)) => {
+                rt!($s, $cx, $name, $owned, $read, &format!("blob:{}", $label), &v);
+            }
+        }
+    }};
+}
+
+/// (iii) the repo's own test blobs
+fn blobs(_cfg: &Config, s: &mut Session, cx: &mut Ctx) {
+    use font_test_data as t;
+    blob!(s, cx, "Gdef", w::gdef::Gdef, r::gdef::Gdef, "GDEF_HEADER", t::gdef::GDEF_HEADER);
+    blob!(s, cx, "ClassDef", w::layout::ClassDef, r::layout::ClassDef, "GLYPHCLASSDEF_TABLE", t::gdef::GLYPHCLASSDEF_TABLE);
+    blob!(s, cx, "AttachList", w::gdef::AttachList, r::gdef::AttachList, "ATTACHLIST_TABLE", t::gdef::ATTACHLIST_TABLE);
+    blob!(s, cx, "LigCaretList", w::gdef::LigCaretList, r::gdef::LigCaretList, "LIGCARETLIST_TABLE", t::gdef::LIGCARETLIST_TABLE);
+    blob!(s, cx, "CaretValueFormat3", w::gdef::CaretValueFormat3, r::gdef::CaretValueFormat3, "CARETVALUEFORMAT3_TABLE", t::gdef::CARETVALUEFORMAT3_TABLE);
+    blob!(s, cx, "ClassDef", w::layout::ClassDef, r::layout::ClassDef, "MARKATTACHCLASSDEF_TABLE", t::gdef::MARKATTACHCLASSDEF_TABLE);
+    blob!(s, cx, "SinglePos", w::gpos::SinglePos, r::gpos::SinglePos, "SINGLEPOSFORMAT1", t::gpos::SINGLEPOSFORMAT1);
+    blob!(s, cx, "SinglePos", w::gpos::SinglePos, r::gpos::SinglePos, "SINGLEPOSFORMAT2", t::gpos::SINGLEPOSFORMAT2);
+    blob!(s, cx, "PairPos", w::gpos::PairPos, r::gpos::PairPos, "PAIRPOSFORMAT1", t::gpos::PAIRPOSFORMAT1);
+    blob!(s, cx, "PairPos", w::gpos::PairPos, r::gpos::PairPos, "PAIRPOSFORMAT2", t::gpos::PAIRPOSFORMAT2);
+    blob!(s, cx, "CursivePosFormat1", w::gpos::CursivePosFormat1, r::gpos::CursivePosFormat1, "CURSIVEPOSFORMAT1", t::gpos::CURSIVEPOSFORMAT1);
+    blob!(s, cx, "MarkBasePosFormat1", w::gpos::MarkBasePosFormat1, r::gpos::MarkBasePosFormat1, "MARKBASEPOSFORMAT1", t::gpos::MARKBASEPOSFORMAT1);
+    blob!(s, cx, "MarkLigPosFormat1", w::gpos::MarkLigPosFormat1, r::gpos::MarkLigPosFormat1, "MARKLIGPOSFORMAT1", t::gpos::MARKLIGPOSFORMAT1);
+    blob!(s, cx, "MarkMarkPosFormat1", w::gpos::MarkMarkPosFormat1, r::gpos::MarkMarkPosFormat1, "MARKMARKPOSFORMAT1", t::gpos::MARKMARKPOSFORMAT1);
+    blob!(s, cx, "SequenceContext", w::layout::SequenceContext, r::layout::SequenceContext, "CONTEXTUALPOSFORMAT1", t::gpos::CONTEXTUALPOSFORMAT1);
+    blob!(s, cx, "SequenceContext", w::layout::SequenceContext, r::layout::SequenceContext, "CONTEXTUALPOSFORMAT2", t::gpos::CONTEXTUALPOSFORMAT2);
+    blob!(s, cx, "SequenceContext", w::layout::SequenceContext, r::layout::SequenceContext, "CONTEXTUALPOSFORMAT3", t::gpos::CONTEXTUALPOSFORMAT3);
+    blob!(s, cx, "AnchorTable", w::gpos::AnchorTable, r::gpos::AnchorTable, "ANCHORFORMAT1", t::gpos::ANCHORFORMAT1);
+    blob!(s, cx, "AnchorTable", w::gpos::AnchorTable, r::gpos::AnchorTable, "ANCHORFORMAT2", t::gpos::ANCHORFORMAT2);
+    blob!(s, cx, "AnchorTable", w::gpos::AnchorTable, r::gpos::AnchorTable, "ANCHORFORMAT3", t::gpos::ANCHORFORMAT3);
+    blob!(s, cx, "SingleSubst", w::gsub::SingleSubst, r::gsub::SingleSubst, "SINGLESUBSTFORMAT1_TABLE", t::gsub::SINGLESUBSTFORMAT1_TABLE);
+    blob!(s, cx, "SingleSubst", w::gsub::SingleSubst, r::gsub::SingleSubst, "SINGLESUBSTFORMAT2_TABLE", t::gsub::SINGLESUBSTFORMAT2_TABLE);
+    blob!(s, cx, "MultipleSubstFormat1", w::gsub::MultipleSubstFormat1, r::gsub::MultipleSubstFormat1, "MULTIPLESUBSTFORMAT1_TABLE", t::gsub::MULTIPLESUBSTFORMAT1_TABLE);
+    blob!(s, cx, "AlternateSubstFormat1", w::gsub::AlternateSubstFormat1, r::gsub::AlternateSubstFormat1, "ALTERNATESUBSTFORMAT1_TABLE", t::gsub::ALTERNATESUBSTFORMAT1_TABLE);
+    blob!(s, cx, "LigatureSubstFormat1", w::gsub::LigatureSubstFormat1, r::gsub::LigatureSubstFormat1, "LIGATURESUBSTFORMAT1_TABLE", t::gsub::LIGATURESUBSTFORMAT1_TABLE);
+    blob!(s, cx, "SequenceContext", w::layout::SequenceContext, r::layout::SequenceContext, "CONTEXTUAL_SUBSTITUTION_FORMAT1", t::gsub::CONTEXTUAL_SUBSTITUTION_FORMAT1);
+    blob!(s, cx, "SequenceContext", w::layout::SequenceContext, r::layout::SequenceContext, "CONTEXTUAL_SUBSTITUTION_FORMAT2", t::gsub::CONTEXTUAL_SUBSTITUTION_FORMAT2);
+    blob!(s, cx, "SequenceContext", w::layout::SequenceContext, r::layout::SequenceContext, "CONTEXTUAL_SUBSTITUTION_FORMAT3", t::gsub::CONTEXTUAL_SUBSTITUTION_FORMAT3);
+    blob!(s, cx, "ReverseChainSingleSubstFormat1", w::gsub::ReverseChainSingleSubstFormat1, r::gsub::ReverseChainSingleSubstFormat1, "REVERSECHAINSINGLESUBSTFORMAT1", t::gsub::REVERSECHAINSINGLESUBSTFORMAT1);
+    blob!(s, cx, "ScriptList", w::layout::ScriptList, r::layout::ScriptList, "SCRIPTS", t::layout::SCRIPTS);
+    blob!(s, cx, "Script", w::layout::Script, r::layout::Script, "SCRIPTS_AND_LANGUAGES", t::layout::SCRIPTS_AND_LANGUAGES);
+    blob!(s, cx, "FeatureList", w::layout::FeatureList, r::layout::FeatureList, "FEATURELIST_AND_FEATURE", t::layout::FEATURELIST_AND_FEATURE);
+    blob!(s, cx, "Post", w::post::Post, r::post::Post, "post::SIMPLE", t::post::SIMPLE);
+    blob!(s, cx, "Meta", w::meta::Meta, r::meta::Meta, "meta::SIMPLE_META_TABLE", t::meta::SIMPLE_META_TABLE);
+}
